@@ -675,8 +675,18 @@ def rule_u10(F):
     dom = mir.dominators(b)
     loops = mir.natural_loops(b)
     shrink = [bi for bi, t in mir.calls(b) if hir.last(mir.callee_def(t) or "") in ("retain", "retain_mut", "extract_if", "drain_filter")]
+    hand_made = False
     if not shrink:
-        r.missing("the call that removes resolved imports (Vec::retain) in TypeChecker::imports")
+        # the round written by hand (`for p in pending { if .. self.import(scope, p).is_err() { still_pending.push(p) } }`): the step
+        # that makes progress is the attempt to import
+        shrink = [bi for bi, t in mir.calls(b) if hir.last(mir.callee(t) or mir.callee_def(t) or "") == "import" and any(bi in nodes for _, nodes in loops)]
+        # only attempts of the round itself, not the error-reporting pass after the no-progress test
+        if shrink:
+            depth_ = {bi: mir.loop_depth(b, bi, loops) for bi in shrink}
+            shrink = [min(shrink, key=lambda x: (x not in [y for y in shrink if depth_[y] >= 2], x))][:1]
+        hand_made = True
+    if not shrink:
+        r.missing("the step that removes resolved imports (Vec::retain, or a loop over the pending imports calling import) in TypeChecker::imports")
         return r
     lens = {bi for bi, t in mir.calls(b) if hir.last(mir.callee_def(t) or "") == "len"}
     found = 0
@@ -697,14 +707,16 @@ def rule_u10(F):
                 lc = mir.back_calls(b, defs, c[1][0]) & lens
                 if not la or not lc:
                     continue
-                after = mir.reachable_from(b, sb)
-                post = [x for x in (la | lc) if x in after and x in nodes and sb in dom[x]]
+                after = mir.reachable_from(b, sb) if not hand_made else mir.reachable_from(b, sb, stop={h})
+                post = [x for x in (la | lc) if x in after and x in nodes and (sb in dom[x] or (hand_made and x != h and not (x in dom[sb])))]
                 pre = [x for x in (la | lc) if x not in post]
                 if not post or not pre:
                     continue
                 found += 1
                 # (a) the count is read inside the round, before the retain
                 in_round = all(x in nodes and x in dom[sb] for x in pre)
+                if hand_made and bi in mir.reachable_from(b, sb, stop={h}) and not all(x in dom[bi] for x in pre):
+                    in_round = False
                 # (b) ... or it is carried from round to round: initialised from a len() before the loop and re-assigned inside the
                 # loop, after the comparison, from the count read after this round's retain
                 carried = False
